@@ -128,6 +128,18 @@ CLAIMS = {
          'and up to 150 per triple with two concurrent checks, on memory and Redis, real goroutines stopped at every store call and token-endpoint call; each thread replayed against the model in '
          'lock-step, the global order checked against the session map, finality judged by the monitor which classifies a violation by the stale write that caused it; 200 random sequential histories '
          'with logouts and replays of logged-out cookies.'},
+    'C17': {'note': 'Trusted: Coq kernel+vm_compute; the hand-written loader model incl. its reading of proto.Merge and of the generated validation rules (validated by equality of accepted configurations on '
+         'every run); protojson, net/url, go-redis URL parsing and net.ParseIP as oracles; Go harness. Gallina axioms: none.',
+ 'technique': 'Coq proof on a model of Validate() over the decoded message (port clash, URL checks, chain pre-checks, proto.Merge of override over default, defaults, structural checks, generated '
+              'ValidateAll rules): never Panic; Ok implies every filter fully resolved (list inductions over chains/filters, case analysis per check); correspondence: ~3,000 grammar-generated '
+              'documents (38% accepted) + fixture mutations loaded by the real Validate under recover(), class AND accepted configuration compared with the model',
+ 'text': 'Machine-checked: C17_no_panic (for every decoded document), C17_accept_sound (accepted => each chain has at most one OIDC filter and every OIDC filter is fully resolved in the sense of the '
+         'statement: openid scope, parseable non-root callback, distinct non-root logout path, colon-free client id, secret source, ID-token header, endpoints or discovery URI; default consumed; no '
+         'override/untyped filter left), C17_merge_fieldwise. Tie to the code on every run: documents built field by field as perturbations of acceptable ones (every OIDC field, each oneof arm incl. '
+         'set-but-empty members, untyped filters, sparse overrides, unparsable / root / colliding URLs, tcp:// Redis URIs, odd ports/addresses/log levels) plus mutations of the 19 repository '
+         "fixtures; each is decoded with protojson, printed as the model's input with the oracle answers (url.Parse, redis.ParseURL, net.ParseIP), loaded with LocalConfigFile.Validate under "
+         "recover(); the class (accepted / error / panic) and, when accepted, the whole resulting configuration are compared with the model's result in Coq; a panic or an accepted-but-unresolved "
+         'configuration is a violation regardless of the model.'},
     "C07": {
         "technique": "Coq proof (induction over rule/pattern lists and strings) of the trigger decision = documented function of the path component, for all rule sets, targets and regex engines; correspondence: exhaustive small-alphabet targets x rule sets through ExtAuthZFilter.Check, evaluated against model and an independent monitor by coqc vm_compute",
         "text": "Machine-checked theorems (C07_trigger_spec, C07_query_irrelevant, C07_path_split; closed under the global context) over a model of GetPathQueryFragment/stringMatch/matchTriggerRule/mustTriggerCheck, for ALL rule sets and ALL byte strings. The model is tied to the code on every run by running ExtAuthZFilter.Check of the current tree on every target over {/,a,b,.,?,#} up to length 5 (6 in thorough) for dozens of rule sets (all four match kinds, regex from a sub-grammar) and comparing with the model and with an independently written boolean spec inside Coq.",
